@@ -453,7 +453,59 @@ pub fn cli(ctx: &Ctx) -> Stats {
             }));
             st.class("output is a named pipe");
         }
+        // one case in sixteen: the *input* is a named pipe fed by a slow producer that stalls for 400 ms twice (a
+        // decompressor or a network stream upstream): a pause is not the end of the input
+        let in_fifo = idx % 16 == 9 || idx % 16 == 12;
+        let mut feeder = None;
+        let args = if in_fifo {
+            let fpath = sc.path("stream.fa");
+            let _ = std::fs::remove_file(&fpath);
+            let c = std::ffi::CString::new(fpath.clone()).unwrap();
+            if unsafe { libc::mkfifo(c.as_ptr(), 0o644) } != 0 {
+                st.inconclusive("mkfifo failed".into());
+                return;
+            }
+            let data = ser::to_fasta(&recs, &SerOpts::plain());
+            let fp = fpath.clone();
+            feeder = Some(std::thread::spawn(move || {
+                use std::io::Write;
+                // open blocks until the tool opens the pipe for reading; give up after the tool is gone (open O_NONBLOCK loop)
+                let c = std::ffi::CString::new(fp).unwrap();
+                let t0 = std::time::Instant::now();
+                let fd = loop {
+                    let fd = unsafe { libc::open(c.as_ptr(), libc::O_WRONLY | libc::O_NONBLOCK) };
+                    if fd >= 0 || t0.elapsed() > std::time::Duration::from_secs(20) {
+                        break fd;
+                    }
+                    std::thread::sleep(std::time::Duration::from_millis(2));
+                };
+                if fd < 0 {
+                    return;
+                }
+                unsafe {
+                    let fl = libc::fcntl(fd, libc::F_GETFL);
+                    libc::fcntl(fd, libc::F_SETFL, fl & !libc::O_NONBLOCK);
+                }
+                use std::os::fd::FromRawFd;
+                let mut f = unsafe { std::fs::File::from_raw_fd(fd) };
+                let cut1 = data.len() / 3;
+                let cut2 = 2 * data.len() / 3;
+                let _ = f.write_all(&data[..cut1]);
+                std::thread::sleep(std::time::Duration::from_millis(400));
+                let _ = f.write_all(&data[cut1..cut2]);
+                std::thread::sleep(std::time::Duration::from_millis(400));
+                let _ = f.write_all(&data[cut2..]);
+            }));
+            st.class("input is a named pipe with a stalling producer");
+            args.iter().map(|a| if a == &inp { fpath.clone() } else { a.clone() }).collect::<Vec<String>>()
+        } else {
+            args
+        };
         let res = run_cli(ctx, &args, None, &CliLimits::default());
+        if let Some(h) = feeder {
+            let _ = h.join();
+            let _ = std::fs::remove_file(sc.path("stream.fa"));
+        }
         fifo_done.store(true, std::sync::atomic::Ordering::Relaxed);
         let fifo_data = fifo_reader.map(|h| h.join().unwrap_or_default());
         if fifo {
